@@ -4,7 +4,7 @@
 # existing suite passes with it, demo fails with it and passes without it.
 set -u
 P=$1; V=$2
-SRC=/tmp/seedout/$P/$V
+SRC=${SEEDROOT:-/tmp/seedout}/$P/$V
 [ -d "$SRC" ] || SRC=/verif/seeded/$P$V
 WT=/tmp/seedwt_$P$V
 export GOFLAGS=-mod=mod GOPROXY=off GOSUMDB=off
